@@ -5,6 +5,7 @@
 //!   parse   {s}                       -> ParsedExpr::parse + Filterset::parse observations
 //!   oracle  {globs, regexes, inputs}  -> validity / match tables of the real glob and regex engines,
 //!                                        obtained through the crate's own NameMatcher values
+//!   (deep takes an optional "stack": bytes -> run on a thread with that stack size)
 //!   graph   {}                        -> workspace packages of the fixture graph + depends_on matrix
 //!   eval    {s, default, queries}     -> matches_test / matches_binary on each query
 //!   deep    {unit, close, depth, leaf} -> parse a deeply nested expression (run in a child process)
@@ -252,6 +253,23 @@ fn eval(case: &Value) -> Value {
 }
 
 fn deep(case: &Value) -> Value {
+    // "stack": N (bytes) runs the work on a thread with that stack size; absent / 0: this (the
+    // main) thread, which is where nextest itself parses -E and the configuration's filters
+    let stack = case.get("stack").and_then(|v| v.as_u64()).unwrap_or(0) as usize;
+    if stack == 0 {
+        deep_work(case)
+    } else {
+        let case = case.clone();
+        std::thread::Builder::new()
+            .stack_size(stack)
+            .spawn(move || deep_work(&case))
+            .expect("spawn")
+            .join()
+            .expect("join")
+    }
+}
+
+fn deep_work(case: &Value) -> Value {
     let unit = case["unit"].as_str().unwrap();
     let close = case["close"].as_str().unwrap();
     let depth = case["depth"].as_u64().unwrap() as usize;
